@@ -1254,6 +1254,8 @@ def run(ctx):
 from ..selftest import Seed, unparse_seed  # noqa: E402
 
 SEEDS = [
+    Seed("DrawGroup loses its pos_y PropDef", "fault", "src/odfdo/shapes.py",
+         "        PropDef(\"pos_x\", \"svg:x\"),\n        PropDef(\"pos_y\", \"svg:y\"),\n    )\n", "        PropDef(\"pos_x\", \"svg:x\"),\n    )\n", "R12u"),
     Seed("Element.parent hides a parentless wrapper element", "fault", "src/odfdo/element.py",
          "        if parent is None:\n            # Already at root\n            return None\n        return Element.from_tag(parent)",
          "        if parent is None:\n            # Already at root\n            return None\n        if parent.getparent() is None and len(parent) == 1:\n            return None\n        return Element.from_tag(parent)", "R12t"),
